@@ -73,9 +73,13 @@ def main(argv=None):
             print(f"replaying {rp.get('rule')} at {rp.get('site')} on the current tree")
         ck, mod, an, viol, kn = evaluate(prop, args.root, args.tier)
         selfval = None
+        sweep = None
         if args.tier == "thorough" and args.root is None:
             from sa.selfval import self_validate
             selfval = self_validate(prop, seed)
+            if not os.environ.get("VERIF_NO_SWEEP"):
+                from sa.mutate import sweep as mutation_sweep
+                sweep = mutation_sweep(prop)
         wall = time.time() - t0
         out_lines = []
         for ob, k in kn:
@@ -97,7 +101,7 @@ def main(argv=None):
                 for line in w[:12]:
                     out_lines.append(f"    | {line}")
         if not args.no_evidence and args.root is None:
-            write_evidence(prop, args.tier, seed, ck, mod, an, viol, kn, wall, selfval)
+            write_evidence(prop, args.tier, seed, ck, mod, an, viol, kn, wall, selfval, sweep)
         n_ok = sum(1 for o in ck.obs if o.ok)
         print(f"[{prop}] tier={args.tier} obligations={len(ck.obs)} discharged={n_ok} "
               f"known={len(kn)} violations={len(viol)} functions={an.stats['functions_analysed']} wall={wall:.2f}s")
@@ -107,6 +111,9 @@ def main(argv=None):
         if selfval is not None:
             print(f"[{prop}] self-validation: mutants {selfval['killed']}/{selfval['mutants']} reported, "
                   f"equivalents {selfval['silent']}/{selfval['equivalents']} silent, skipped {selfval['skipped']}")
+        if sweep is not None:
+            print(f"[{prop}] operator-mutation sweep of the anchor functions (informational): {sweep['killed']}/{sweep['generated']} single-site mutants reported "
+                  f"(ratio {sweep['kill_ratio']}); survivors include equivalent mutants and mutants the repository's own tests reject")
         for l in out_lines:
             print(l)
         if selfval is not None and not selfval["ok"]:
@@ -123,7 +130,7 @@ def main(argv=None):
         return 2
 
 
-def write_evidence(prop, tier, seed, ck, mod, an, viol, kn, wall, selfval):
+def write_evidence(prop, tier, seed, ck, mod, an, viol, kn, wall, selfval, sweep=None):
     res, tot = an.call_stats()
     n_ok = sum(1 for o in ck.obs if o.ok)
     distinct = len({(o.rule, o.name) for o in ck.obs})
@@ -154,6 +161,12 @@ def write_evidence(prop, tier, seed, ck, mod, an, viol, kn, wall, selfval):
     if selfval is not None:
         cov["self_validation"] = {k: v for k, v in selfval.items() if k != "details"}
         cov["self_validation_details"] = selfval.get("details", [])[:80]
+    if sweep is not None:
+        cov["operator_mutation_sweep"] = {"note": "informational sensitivity measurement: every single-site operator mutant (comparison flip, boolean flip, arithmetic flip, dropped factor, "
+                                                  "constant +-1, negated condition, swapped arguments, swapped sibling names, deleted statement, swapped adjacent statements) of the property's anchor "
+                                                  "functions, analysed statically; survivors include equivalent mutants and mutants the repository's own tests reject",
+                                          "functions": sweep["functions"], "generated": sweep["generated"], "reported": sweep["killed"], "not_reported": sweep["survived"], "ratio": sweep["kill_ratio"],
+                                          "not_reported_sample": sweep["survivors"][:60]}
     ev = {
         "property_id": prop, "tier": tier, "seed": seed, "level": "other",
         "coverage": cov,
